@@ -227,6 +227,13 @@ func parseC05Cell(op string) (c05Cell, bool) {
 		return c, false
 	}
 	c = c05Cell{t[0], t[1], t[2], t[3] == "1", t[4], t[5], t[6] == "1", t[7]}
+	if part, special, ok := c05HostTok(c.hostname); !ok {
+		return c, false
+	} else if special {
+		// host forms (c05_hostforms.go): anything the user may write between scheme:// and :port
+		_, okURL := c05PassedHost(part, "4443")
+		return c, c.carrier != "stdin+tls" && okURL
+	}
 	switch c.carrier {
 	case "pipe":
 		if strings.ContainsAny(c.hostname, ":/[]") || c.hostname == "-" {
@@ -248,7 +255,7 @@ func parseC05Cell(op string) (c05Cell, bool) {
 func c05ServerCertAttrs(kind string) (signer string, names []string, expired bool) {
 	switch kind {
 	case "good":
-		return "A", []string{"server.test", "localhost", "127.0.0.1"}, false
+		return "A", []string{"server.test", "localhost", "127.0.0.1", "::1"}, false
 	case "nameonly":
 		return "A", []string{"server.test", "localhost"}, false
 	case "iponly":
@@ -256,16 +263,17 @@ func c05ServerCertAttrs(kind string) (signer string, names []string, expired boo
 	case "wronghost":
 		return "A", []string{"other.test", "10.9.9.9"}, false
 	case "untrusted":
-		return "B", []string{"server.test", "localhost", "127.0.0.1"}, false
+		return "B", []string{"server.test", "localhost", "127.0.0.1", "::1"}, false
 	case "expired", "exp1m", "exp1s", "notyet", "fresh":
-		return "A", []string{"server.test", "localhost", "127.0.0.1"}, c05outsideValidity(kind)
+		return "A", []string{"server.test", "localhost", "127.0.0.1", "::1"}, c05outsideValidity(kind)
 	}
 	return "?", nil, false
 }
 
 func (c c05Cell) serverAcceptable() bool {
 	signer, names, expired := c05ServerCertAttrs(c.scert)
-	return c.cca == "A" && signer == "A" && !expired && c05in(names, c.hostname)
+	part, _, _ := c05HostTok(c.hostname)
+	return c.cca == "A" && signer == "A" && !expired && c05HostAcceptable(names, part)
 }
 
 func (c c05Cell) clientAcceptable() bool { return c05ClientCertAcceptable(c.ccert) && c.sca == "A" }
@@ -328,30 +336,33 @@ func (authmatrixComp) exec1(op string) (string, string, string, bool) {
 
 	var ups upstream.Upstream
 	var shutdown func()
+	hostPart, _, _ := c05HostTok(cell.hostname)
+	bind := c05BindHost(hostPart)
 	switch cell.carrier {
 	case "pipe":
-		ups = &c05PipeUpstream{host: cell.hostname + ":4443", srvCfg: &srvCfg, channels: channels}
+		passed, _ := c05PassedHost(hostPart, "4443")
+		ups = &c05PipeUpstream{host: passed, srvCfg: &srvCfg, channels: channels}
 		shutdown = func() {}
 	case "tcp", "tcp+tls":
 		st := server.NewSocketServer()
 		st.ServerConfig = srvCfg
-		su, _ := url.Parse(cell.carrier + "://127.0.0.1:0")
+		su, _ := url.Parse(cell.carrier + "://" + bind + ":0")
 		st.Address = addr.ProtoAddress{URL: *su}
 		if err := st.Startup(channels); err != nil {
 			return "err server-startup", "", "startup-error", false
 		}
 		shutdown = func() { _ = st.Shutdown() }
 		_, port, _ := net.SplitHostPort(st.VerifC05ListenerAddr().String())
-		cu, _ := url.Parse(cell.carrier + "://" + cell.hostname + ":" + port)
+		cu, _ := url.Parse(cell.carrier + "://" + c05Authority(hostPart, port))
 		ups = &upstream.Socket{Address: addr.ProtoAddress{URL: *cu}}
 	case "udp":
-		pc, err := net.ListenPacket("udp", "127.0.0.1:0")
+		pc, err := net.ListenPacket("udp", bind+":0")
 		if err != nil {
 			return "err server-startup", "", "startup-error", false
 		}
 		st := server.NewPacketServer()
 		st.ServerConfig = srvCfg
-		su, _ := url.Parse("udp://127.0.0.1:0")
+		su, _ := url.Parse("udp://" + bind + ":0")
 		st.Address = addr.ProtoAddress{URL: *su}
 		st.PacketConnection = pc
 		if err := st.Startup(channels); err != nil {
@@ -360,11 +371,11 @@ func (authmatrixComp) exec1(op string) (string, string, string, bool) {
 		}
 		shutdown = func() { _ = st.Shutdown(); _ = pc.Close() }
 		_, port, _ := net.SplitHostPort(pc.LocalAddr().String())
-		cu, _ := url.Parse("udp://" + cell.hostname + ":" + port)
+		cu, _ := url.Parse("udp://" + c05Authority(hostPart, port))
 		ups = &upstream.Packet{Address: addr.ProtoAddress{URL: *cu}}
 	case "wss", "ws":
 		// HttpServer binds ws.Address.Host itself: pick a free loopback port first
-		probe, err := net.Listen("tcp", "127.0.0.1:0")
+		probe, err := net.Listen("tcp", bind+":0")
 		if err != nil {
 			return "err server-startup", "", "startup-error", false
 		}
@@ -373,14 +384,14 @@ func (authmatrixComp) exec1(op string) (string, string, string, bool) {
 		hs := server.NewHttpServer()
 		hs.ServerConfig = srvCfg
 		scheme := map[string]string{"wss": "https", "ws": "http"}[cell.carrier]
-		su, _ := url.Parse(scheme + "://127.0.0.1:" + port)
+		su, _ := url.Parse(scheme + "://" + bind + ":" + port)
 		hs.Address = addr.ProtoAddress{URL: *su}
 		hs.Endpoints = server.WebsocketEndpointList{{Endpoint: "/ws"}}
 		if err := hs.Startup(channels); err != nil {
 			return "timeout", "", "startup-error", false // port raced away: retried by Exec
 		}
 		shutdown = func() { _ = hs.Shutdown() }
-		cu, _ := url.Parse(cell.carrier + "://" + cell.hostname + ":" + port + "/ws")
+		cu, _ := url.Parse(cell.carrier + "://" + c05Authority(hostPart, port) + "/ws")
 		ups = &upstream.Http{Address: addr.ProtoAddress{URL: *cu}}
 	case "stdin+tls":
 		a, b := newBufPipe()
@@ -471,12 +482,60 @@ var c05debug = os.Getenv("C05_DEBUG") != ""
 
 var c05CellTimeout = 20 * time.Second
 
+// c05GenHostForms: host forms for which the derived server name is empty or not a plain host name, through the real
+// Connect of the socket (StartTLS and TLS), packet and websocket upstreams against real servers whose certificate is
+// trusted + matching (good), trusted without IP entries (nameonly), trusted for another host (wronghost) or issued
+// by a foreign CA (untrusted); verifying and insecure client.
+func c05GenHostForms(tier string, emit func(string)) {
+	cell := func(carrier, part, scert string, ins int) {
+		emit(fmt.Sprintf("%s %s %s %d A none 0 A", carrier, c05SpecialTok(part), scert, ins))
+	}
+	scerts := []string{"good", "untrusted", "nameonly", "wronghost"}
+	for _, part := range append(append([]string{}, c05DialForms...), c05PipeOnlyForms...) {
+		for _, sc := range scerts {
+			for ins := 0; ins < 2; ins++ {
+				cell("pipe", part, sc, ins)
+			}
+		}
+	}
+	for _, carrier := range []string{"tcp", "tcp+tls"} {
+		for _, part := range c05DialForms {
+			for _, sc := range scerts {
+				for ins := 0; ins < 2; ins++ {
+					cell(carrier, part, sc, ins)
+				}
+			}
+		}
+	}
+	few := []string{"", "[::1]", "LOCALHOST"}
+	if tier == "thorough" {
+		// without the userinfo forms: gorilla/websocket refuses a ws(s) URL with userinfo outright, and udp userinfo
+		// is the shared secret (such an endpoint does not start, see notes) - both fail closed before TLS
+		few = nil
+		for _, f := range c05DialForms {
+			if !strings.Contains(f, "@") {
+				few = append(few, f)
+			}
+		}
+	}
+	for _, carrier := range []string{"udp", "ws", "wss"} {
+		for _, part := range few {
+			for _, sc := range []string{"good", "untrusted"} {
+				for ins := 0; ins < 2; ins++ {
+					cell(carrier, part, sc, ins)
+				}
+			}
+		}
+	}
+}
+
 func (authmatrixComp) Gen(r *Rand, tier string, emit func(string)) {
 	defer func() {
 		if c05pki != nil {
 			_ = os.RemoveAll(c05pki.dir)
 		}
 	}()
+	c05GenHostForms(tier, emit)
 	b := func(v int) string { return fmt.Sprintf("%d", v) }
 	type ch struct {
 		carrier string
